@@ -28,18 +28,25 @@ def _rows_failing_cells(case):
   return [r for r in case["rows"] if r["after"] not in (r["conv"], r["cconv"])]
 
 
+_PYEQUAL = ({"b1", "#1"}, {"b0", "#0"})
+
+
 def _pyequal_kept(v):
   """doModifyColumn skips `new_column.set` when objtypes.strict_equal(old, converted): that compares the
   outer type and then uses ==, so a converted value that differs from the stored one only by the Python
   type of a number INSIDE a list ([True] -> [1] for RefList, ...) is never stored; the cell keeps the old
   value, which the new type does not accept.  Recognised by: every failing row still holds its previous
-  value, which is a list token, and the conversion is a list token of the same length."""
+  value, a list token, and the conversion is a list token that differs from it only in elements that
+  are Python-equal (True / 1, False / 0)."""
   if v["clause"] != "C23.cells":
     return False
+  def only_pyequal(r):
+    if not (r["after"] == r["prev"] and r["prev"].startswith("L[") and r["cconv"].startswith("L[")):
+      return False
+    old, new = json.loads(r["prev"][1:]), json.loads(r["cconv"][1:])
+    return len(old) == len(new) and all(a == b or {a, b} in _PYEQUAL for a, b in zip(old, new))
   rows = _rows_failing_cells(v["case"])
-  return bool(rows) and all(
-    r["after"] == r["prev"] and r["prev"].startswith("L[") and r["cconv"].startswith("L[") and
-    len(json.loads(r["prev"][1:])) == len(json.loads(r["cconv"][1:])) for r in rows)
+  return bool(rows) and all(only_pyequal(r) for r in rows)
 
 
 def _reflist_alt_text_reparsed(v):
